@@ -310,7 +310,7 @@ pub fn next(rng: &mut Rng, sc: &Sc, o: &Obs) -> Vec<Op> {
                 0 => json!({"swap_exact_amount_in": {"routes": routes, "token_in": {"denom": "uosmo", "amount": amt(rng).to_string()}, "token_out_min_amount": u128::MAX.to_string()}}),
                 1 => json!({"swap_exact_amount_out": {"routes": routes, "token_out": {"denom": sc.s, "amount": amt(rng).to_string()}, "token_in_max_amount": "0"}}),
                 2 => json!({"spend_funds": {"amount": {"denom": sc.s, "amount": amt(rng).to_string()}, "receiver": junk_str(rng, sc), "channel_id": if rng.chance(1, 2) { json!("channel-1") } else { Value::Null }}}),
-                3 => json!({"update_config": {"trader": if rng.chance(1, 2) { json!(junk_str(rng, sc)) } else { Value::Null }, "allowed_swap_routes": if rng.chance(1, 2) { json!([routes]) } else { Value::Null }}}),
+                3 => json!({"update_config": {"trader": if rng.chance(1, 3) { json!(junk_str(rng, sc)) } else { Value::Null }, "allowed_swap_routes": if rng.chance(2, 3) { json!([routes, []]) } else { Value::Null }}}),
                 4 => json!({"transfer_ownership": {"new_owner": junk_str(rng, sc)}}),
                 5 => json!({"accept_ownership": {}}),
                 6 => json!({"revoke_ownership_transfer": {}}),
@@ -318,6 +318,9 @@ pub fn next(rng: &mut Rng, sc: &Sc, o: &Obs) -> Vec<Op> {
             };
             if rng.chance(1, 3) {
                 vec![Op::QueryProbe { contract: tr, msg: if rng.chance(1, 2) { "{\"config\":{}}".into() } else { "{\"x\":1}".into() } }]
+            } else if rng.chance(1, 2) {
+                let who = if rng.chance(2, 3) { sc.admin.clone() } else { sender };
+                vec![Op::Exec { sender: who, contract: tr, msg: m.to_string(), funds: vec![] }]
             } else {
                 vec![Op::ExecProbe { sender, contract: tr, msg: m.to_string(), funds: vec![], mint: vec![] }]
             }
